@@ -7,8 +7,13 @@ ALPHABETS = {
     "ascii": ["x", "y", "hello", "A b", "42", "0.5", "true", ""],
     "xml": ["a < b & c", "\"q\"", "it's", "&amp;", "&lt;x&gt;", "<para>t</para>", "]]>", "a>b", "&#65;", "<!-- c -->"],
     "unicode": ["\u00e9", "\u03a9", "\u6f22\u5b57", "\U0001F600", "\ud800", "\u00a0", "\u0000",
-                "\u200b", "e\u0301", "\ufeff", "\U0010FFFF"],
-    "space": [" ", "\t", "\n", "  ", " x ", "a  b", "\r\n", "\u00a0 "],
+                "\u200b", "e\u0301", "\ufeff", "\U0010FFFF", "\u0085", "\u2028", "a\u2029b", "\x0b", "\x1c", "\x7f"],
+    "space": [" ", "\t", "\n", "  ", " x ", "a  b", "\r\n", "\u00a0 ", " 2017 ", "\t2017-05-01", " 0.5 ", "42 ",
+              " all ", "2017\n"],
+    # text that looks like the syntax of the formats the library reads and writes
+    "syntax": ["[north, south, ]", "{\"a\": 1,}", ",]", ", }", "\\", "\"", "\\\"", "null", "\\u0041", "}]", "[{",
+               "</x>", "<![CDATA[x]]>", "&#x41;", "xmlns:p=\"u\"", "'", "\\n", "a,\n]"],
+    "long": ["a" * 64, "ab " * 100, "\u00e9" * 300, "x" * 5000, "<&>" * 40, "word " * 25],
 }
 NAME_POOL = ["a", "b", "c", "d", "e", "f"]
 PREFIX_POOL = ["p", "q", "r"]
@@ -47,6 +52,7 @@ def base_cfg(rng, seed):
         "max_copy": rng.choice([5, 20, 400]),
         "burst": rng.choice([1, 1, 3, 10]),
         "faults": True,
+        "shape": rng.choice(["mixed", "mixed", "wide", "deep"]),
     }
     return cfg
 
@@ -106,6 +112,20 @@ class G:
         """Bias towards nodes that already have children and towards roots of
         larger trees, so trees grow deep and wide instead of staying pairs."""
         rng = self.rng
+        shape = self.cfg.get("shape", "mixed")
+        if shape != "mixed" and rng.random() < 0.6:
+            s = self.snap
+            if shape == "wide":
+                # a few hubs collect most children: long sibling lists
+                par = self.V.cands("par", self.sess)
+                if par:
+                    top = sorted(par, key=lambda h: -len(s.cells[h][CH]))[:2]
+                    return rng.choice(top)
+            else:
+                # keep extending the most recently attached nodes: deep chains
+                lst = self.V.cands("lst", self.sess)
+                if lst:
+                    return lst[-1] if rng.random() < 0.7 else rng.choice(lst[-3:])
         r = rng.random()
         if r < 0.35:
             par = self.V.cands("par", self.sess)
